@@ -1,8 +1,12 @@
 package rules
 
 import (
+	"fmt"
 	"go/ast"
+	"go/token"
+	"go/types"
 	"regexp"
+	"sort"
 	"strings"
 
 	"verif/checker/internal/core"
@@ -240,4 +244,463 @@ func itoa(n int) string {
 		n /= 10
 	}
 	return s
+}
+
+// EV9: no "unchanged" verdict while recorded differences exist. A definition comparer of the evolution analyser
+// builds a change object (RecordChange, ProtocolChange, EnumChange) and returns it, or nil for "no change". Every
+// piece of change data it computes — each field of the change object that receives a computed value — must take
+// part in the decision between the two: the conditions guarding `return <change>` depend (through locals and the
+// conditions under which those locals are set) on that field. Data that is recorded but cannot prevent the nil
+// verdict is an edit class reported as "unchanged": no compatibility serializer is generated for it.
+func ruleComparersConsultTheirData(c *core.Ctx) {
+	const rule = "EV9"
+	c.Rule(rule, "pkg/dsl definition comparers: every computed field of the change object a comparer can return influences the decision between returning it and returning nil (no recorded difference is compatible with the verdict 'unchanged')", 9)
+	p := c.Pkg("pkg/dsl")
+	if p == nil {
+		c.Undecided(rule, "anchor/pkg/dsl", 0, "package not found")
+		return
+	}
+	info := p.TypesInfo
+	for _, d := range c.AllDecls() {
+		if c.DeclPkg(d) != p || d.Body == nil || !strings.HasPrefix(d.Name.Name, "compare") || !strings.HasSuffix(d.Name.Name, "Definitions") {
+			continue
+		}
+		parent := map[ast.Node]ast.Node{}
+		var stack []ast.Node
+		ast.Inspect(d.Body, func(n ast.Node) bool {
+			if n == nil {
+				stack = stack[:len(stack)-1]
+				return true
+			}
+			if len(stack) > 0 {
+				parent[n] = stack[len(stack)-1]
+			}
+			stack = append(stack, n)
+			return true
+		})
+		isChangeLit := func(e ast.Expr) *ast.CompositeLit {
+			if ue, ok := ast.Unparen(e).(*ast.UnaryExpr); ok {
+				e = ue.X
+			}
+			cl, ok := ast.Unparen(e).(*ast.CompositeLit)
+			if !ok {
+				return nil
+			}
+			nt := core.NamedOf(info.TypeOf(cl))
+			if nt == nil || !strings.HasSuffix(nt.Obj().Name(), "Change") {
+				return nil
+			}
+			return cl
+		}
+		// change variables: v := &XChange{...}
+		changeVars := map[types.Object]*ast.CompositeLit{}
+		ast.Inspect(d.Body, func(n ast.Node) bool {
+			if as, ok := n.(*ast.AssignStmt); ok && len(as.Lhs) == 1 && len(as.Rhs) == 1 {
+				if cl := isChangeLit(as.Rhs[0]); cl != nil {
+					if o := identObj(info, as.Lhs[0]); o != nil {
+						changeVars[o] = cl
+					}
+				}
+			}
+			return true
+		})
+		hasNilReturn := false
+		ast.Inspect(d.Body, func(n ast.Node) bool {
+			if r, ok := n.(*ast.ReturnStmt); ok && len(r.Results) == 1 {
+				if tv, ok := info.Types[r.Results[0]]; ok && tv.IsNil() {
+					hasNilReturn = true
+				}
+			}
+			return true
+		})
+		if !hasNilReturn {
+			continue
+		}
+		// conditions enclosing a node: if conditions, for conditions, range expressions, switch tags / case expressions
+		enclosing := func(n ast.Node) []ast.Expr {
+			var out []ast.Expr
+			for cur := parent[n]; cur != nil; cur = parent[cur] {
+				switch s := cur.(type) {
+				case *ast.IfStmt:
+					out = append(out, s.Cond)
+				case *ast.ForStmt:
+					if s.Cond != nil {
+						out = append(out, s.Cond)
+					}
+				case *ast.RangeStmt:
+					out = append(out, s.X)
+				case *ast.CaseClause:
+					out = append(out, s.List...)
+				case *ast.SwitchStmt:
+					if s.Tag != nil {
+						out = append(out, s.Tag)
+					}
+				}
+			}
+			return out
+		}
+		// dependence closure of a set of expressions
+		closure := func(seeds []ast.Expr) (map[types.Object]bool, map[string]bool) {
+			objs := map[types.Object]bool{}
+			fields := map[string]bool{} // "<changeVar>.<Field>"
+			var work []ast.Expr
+			work = append(work, seeds...)
+			for len(work) > 0 {
+				e := work[len(work)-1]
+				work = work[:len(work)-1]
+				ast.Inspect(e, func(n ast.Node) bool {
+					switch x := n.(type) {
+					case *ast.SelectorExpr:
+						if o := identObj(info, x.X); o != nil && changeVars[o] != nil {
+							fields[o.Name()+"."+x.Sel.Name] = true
+						}
+					case *ast.Ident:
+						o := info.Uses[x]
+						v, isVar := o.(*types.Var)
+						if !isVar || v.IsField() || objs[o] || v.Parent() == nil || v.Parent() == p.Types.Scope() {
+							return true
+						}
+						objs[o] = true
+						// every definition of the local: its right-hand sides and the conditions it is made under;
+						// a range variable depends on the ranged expression
+						ast.Inspect(d.Body, func(m ast.Node) bool {
+							switch s := m.(type) {
+							case *ast.AssignStmt:
+								for i, l := range s.Lhs {
+									if identObj(info, l) == o || (isIndexOf(info, l, o)) {
+										if len(s.Rhs) == len(s.Lhs) {
+											work = append(work, s.Rhs[i])
+										} else {
+											work = append(work, s.Rhs...)
+										}
+										work = append(work, enclosing(s)...)
+									}
+								}
+							case *ast.RangeStmt:
+								if identObj(info, s.Key) == o || identObj(info, s.Value) == o {
+									work = append(work, s.X)
+								}
+							case *ast.IncDecStmt:
+								if identObj(info, s.X) == o {
+									work = append(work, enclosing(s)...)
+								}
+							}
+							return true
+						})
+					}
+					return true
+				})
+			}
+			return objs, fields
+		}
+		// the verdict is nil only when the guards of ALL change-returning statements fail: their union is what the
+		// recorded data must influence
+		var allConds []ast.Expr
+		var varReturns []types.Object
+		var litReturns []*ast.CompositeLit
+		ast.Inspect(d.Body, func(n ast.Node) bool {
+			r, ok := n.(*ast.ReturnStmt)
+			if !ok || len(r.Results) != 1 {
+				return true
+			}
+			conds := enclosing(r)
+			if len(conds) == 0 {
+				return true // an unconditional return is not a verdict between change and nil
+			}
+			if o := identObj(info, r.Results[0]); o != nil && changeVars[o] != nil {
+				allConds = append(allConds, conds...)
+				varReturns = append(varReturns, o)
+			} else if cl := isChangeLit(r.Results[0]); cl != nil {
+				allConds = append(allConds, conds...)
+				litReturns = append(litReturns, cl)
+			}
+			return true
+		})
+		objs, fields := closure(allConds)
+		done := map[types.Object]bool{}
+		for _, o := range varReturns {
+			if done[o] {
+				continue
+			}
+			done[o] = true
+			written := map[string]token.Pos{}
+			ast.Inspect(d.Body, func(m ast.Node) bool {
+				if as, ok := m.(*ast.AssignStmt); ok {
+					for _, l := range as.Lhs {
+						base := l
+						if ix, ok := ast.Unparen(base).(*ast.IndexExpr); ok {
+							base = ix.X
+						}
+						if se, ok := ast.Unparen(base).(*ast.SelectorExpr); ok && identObj(info, se.X) == o {
+							if _, seen := written[se.Sel.Name]; !seen {
+								written[se.Sel.Name] = as.Pos()
+							}
+						}
+					}
+				}
+				return true
+			})
+			for f, at := range written {
+				key := d.Name.Name + "/" + o.Name() + "." + f
+				c.Check(fields[o.Name()+"."+f], rule, key, at, "the verdict depends on "+o.Name()+"."+f,
+					"the comparer records "+o.Name()+"."+f+" but can still return nil whatever it holds: a difference of that kind is reported as 'unchanged' (no compatibility code is generated, the old layout is read with the new one)")
+			}
+		}
+		for _, cl := range litReturns {
+			for _, el := range cl.Elts {
+				kv, ok := el.(*ast.KeyValueExpr)
+				if !ok {
+					continue
+				}
+				fname := types.ExprString(kv.Key)
+				var locals []types.Object
+				ast.Inspect(kv.Value, func(m ast.Node) bool {
+					if id, ok := m.(*ast.Ident); ok {
+						if v, isVar := info.Uses[id].(*types.Var); isVar && !v.IsField() && v.Parent() != p.Types.Scope() && !isParam(d, info, v) {
+							locals = append(locals, v)
+						}
+					}
+					return true
+				})
+				if len(locals) == 0 {
+					continue // carried over from the parameters
+				}
+				dep := false
+				for _, l := range locals {
+					if objs[l] {
+						dep = true
+					}
+				}
+				c.Check(dep, rule, d.Name.Name+"/"+core.NamedOf(info.TypeOf(cl)).Obj().Name()+"."+fname, kv.Pos(), "the verdict depends on the value stored in "+fname,
+					"the comparer stores "+types.ExprString(kv.Value)+" in "+fname+" but the decision to report a change does not depend on it")
+			}
+		}
+	}
+}
+
+func isIndexOf(info *types.Info, l ast.Expr, o types.Object) bool {
+	if ix, ok := ast.Unparen(l).(*ast.IndexExpr); ok {
+		return identObj(info, ix.X) == o
+	}
+	return false
+}
+
+func isParam(d *ast.FuncDecl, info *types.Info, v *types.Var) bool {
+	for _, f := range d.Type.Params.List {
+		for _, n := range f.Names {
+			if info.Defs[n] == v {
+				return true
+			}
+		}
+	}
+	return false
+}
+
+// EV7: the table of previous schemas is positional. The generated C++ `previous_schemas_` is indexed by the
+// position of a version in ns.Versions (SchemaFromVersion, VersionFromSchema). Its initialiser must therefore
+// contribute exactly one element per listed version, whatever the protocol's change for that version is, and
+// every `previous_schemas_[%d]` must be fed the index of a loop over the same list.
+func rulePreviousSchemasPositional(c *core.Ctx) {
+	const rule = "EV7"
+	c.Rule(rule, "cpp/protocols: the initialiser of previous_schemas_ emits exactly one element per version of ns.Versions under every outcome of its tests, and every previous_schemas_[%d] is indexed by the loop index over ns.Versions", 3)
+	rows, d := flatRows(c, "internal/cpp/protocols", "writeDefinitions")
+	if d == nil {
+		c.Undecided(rule, "anchor/cpp/protocols.writeDefinitions", 0, "anchor not found")
+		return
+	}
+	const versions = "Namespace.Versions"
+	in := false
+	var hdr gee.Row
+	var elems []gee.Row
+	for _, r := range rows {
+		if r.Kind != "emit" {
+			continue
+		}
+		if strings.Contains(r.Tmpl, "::previous_schemas_ = {") {
+			in, hdr = true, r
+			continue
+		}
+		if in {
+			if strings.HasPrefix(strings.TrimSpace(r.Tmpl), "};") {
+				break
+			}
+			elems = append(elems, r)
+		}
+	}
+	if !in {
+		c.Undecided(rule, "previous_schemas_ initialiser", d.Pos(), "the emission of the previous_schemas_ initialiser was not found")
+		return
+	}
+	// atoms of the element rows beyond the header's guards
+	base := map[string]bool{}
+	for _, g := range hdr.Guards {
+		base[g] = true
+	}
+	atomSet := map[string]bool{}
+	for _, r := range elems {
+		for _, g := range r.Guards {
+			if base[g] {
+				continue
+			}
+			a := stripDsl(g)
+			for strings.HasPrefix(a, "!(") && strings.HasSuffix(a, ")") {
+				a = a[2 : len(a)-1]
+			}
+			atomSet[a] = true
+		}
+	}
+	var atoms []string
+	for a := range atomSet {
+		atoms = append(atoms, a)
+	}
+	sort.Strings(atoms)
+	okAll, why := len(atoms) <= 6, ""
+	if !okAll {
+		why = "too many conditions around the elements"
+	}
+	for mask := 0; okAll && mask < 1<<len(atoms); mask++ {
+		asg := map[string]string{}
+		for i, a := range atoms {
+			asg[a] = map[bool]string{true: "true", false: "false"}[mask&(1<<i) != 0]
+		}
+		n := 0
+		for _, r := range elems {
+			var gs []string
+			for _, g := range r.Guards {
+				if !base[g] {
+					gs = append(gs, g)
+				}
+			}
+			if sat, _ := guardSat(gs, asg); sat && hasLoop(r, versions) {
+				n++
+			}
+		}
+		if n != 1 {
+			okAll = false
+			why = fmt.Sprintf("under %v the loop over %s contributes %d elements", asg, versions, n)
+		}
+	}
+	c.Check(okAll, rule, "previous_schemas_/one element per version", hdr.Pos, fmt.Sprintf("exactly one element per version under all %d outcomes of %v", 1<<len(atoms), atoms),
+		"the initialiser of previous_schemas_ does not contribute exactly one element per listed version ("+why+"): SchemaFromVersion / VersionFromSchema index it by version position, so a stream of an older version is attributed to the wrong version or read out of range")
+	// every index use
+	n := 0
+	for _, r := range rows {
+		if r.Kind != "emit" || !strings.Contains(r.Tmpl, "previous_schemas_[%d]") {
+			continue
+		}
+		n++
+		ix := ""
+		for li, l := range r.Loop {
+			if l == "range "+versions && li < len(r.LoopIx) {
+				ix = r.LoopIx[li]
+			}
+		}
+		var arg string
+		for _, u := range verbUses(r.Tmpl) {
+			if strings.HasSuffix(u.before, "previous_schemas_[") && u.arg >= 0 && u.arg < len(r.Args) {
+				arg = r.Args[u.arg]
+			}
+		}
+		c.Check(ix != "" && arg == ix, rule, "previous_schemas_[%d]/"+strings.TrimSpace(strings.SplitN(r.Tmpl, "previous_schemas_", 2)[0]), r.Pos, "indexed by the loop index over "+versions,
+			"previous_schemas_ is indexed by `"+arg+"`, not by the index of the loop over "+versions)
+	}
+	if n == 0 {
+		c.Undecided(rule, "previous_schemas_[%d]", d.Pos(), "no indexed use of previous_schemas_ found")
+	}
+}
+
+var methodHeaderRe = regexp.MustCompile(`^\s*(def |function |VAR:signature)|::(%s|[A-Za-z]+)\([^;]*\{\s*$`)
+var stateVarRe = regexp.MustCompile(`(^|[^A-Za-z0-9])(_state|state_)([^A-Za-z0-9_]|$)`)
+var stateCmpRe = regexp.MustCompile(`(_state|state_)\s*(&\s*~1\s*)?(!=|~=|==)`)
+var plainReturnRe = regexp.MustCompile(`(^|[^A-Za-z_])return([^A-Za-z_]|$)`)
+
+// S2: no way around the state guard. In every emitted method of a generated protocol reader/writer that contains
+// a comparison of the state variable, nothing that leaves the method normally (`return`) is emitted in front of
+// the first emission that mentions the state: a fast path in front of the guard accepts the call in any state.
+// (Throwing in front of the guard — rejecting a bad argument — is not an acceptance.)
+func ruleNoReturnBeforeStateGuard(c *core.Ctx) {
+	const rule = "S2"
+	c.Rule(rule, "generated protocol methods (C++, Python, MATLAB): inside a method that checks the protocol state, no `return` is emitted before the first emission that mentions the state variable", 14)
+	for _, pkgRel := range []string{"internal/cpp/protocols", "internal/python/protocols", "internal/matlab/protocols"} {
+		all := pkgRows(c, pkgRel)
+		called := map[string]bool{}
+		for fd := range all {
+			for _, cs := range c.Calls(fd) {
+				if cs.Callee != nil && c.DeclPkg(fd) != nil && cs.Callee.Pkg() == c.DeclPkg(fd).Types && cs.Callee.Name() != fd.Name.Name {
+					called[cs.Callee.Name()] = true
+				}
+			}
+		}
+		for fd := range all {
+			if fd.Recv != nil || called[fd.Name.Name] {
+				continue // helpers are seen expanded in their callers
+			}
+			rows, _ := flatRows(c, pkgRel, fd.Name.Name) // helpers of the package expanded at their call sites
+			var emits []gee.Row
+			for _, r := range rows {
+				if r.Kind == "emit" {
+					emits = append(emits, r)
+				}
+			}
+			// split into methods
+			type span struct{ from, to int }
+			var spans []span
+			start := -1
+			for i, r := range emits {
+				boundary := methodHeaderRe.MatchString(r.Tmpl) || (i > 0 && emits[i-1].In != r.In)
+				if boundary {
+					if start >= 0 {
+						spans = append(spans, span{start, i})
+					}
+					start = i
+				}
+			}
+			if start >= 0 {
+				spans = append(spans, span{start, len(emits)})
+			}
+			seen := map[string]int{}
+			for _, sp := range spans {
+				firstState, firstCmp := -1, -1
+				for i := sp.from; i < sp.to; i++ {
+					if firstState < 0 && stateVarRe.MatchString(emits[i].Tmpl) {
+						firstState = i
+					}
+					if firstCmp < 0 && stateCmpRe.MatchString(emits[i].Tmpl) {
+						firstCmp = i
+					}
+				}
+				if firstCmp < 0 {
+					continue // the method does not check the state
+				}
+				hdr := emits[sp.from]
+				name := strings.TrimSpace(hdr.Tmpl)
+				if len(hdr.Args) > 0 {
+					name += " " + hdr.Args[len(hdr.Args)-1]
+				}
+				if hdr.In != "" {
+					name = "<" + hdr.In + "> " + name
+				}
+				if len(name) > 90 {
+					name = name[:90]
+				}
+				key := pkgRel + "." + fd.Name.Name + "/" + name
+				seen[key]++
+				if seen[key] > 1 {
+					key += "#" + itoa(seen[key])
+				}
+				bad := -1
+				for i := sp.from + 1; i < firstState; i++ {
+					if plainReturnRe.MatchString(emits[i].Tmpl) {
+						bad = i
+						break
+					}
+				}
+				if bad >= 0 {
+					c.Bad(rule, key, emits[bad].Pos, "`"+strings.TrimSpace(emits[bad].Tmpl)+"` is emitted in front of the state check of this method: the call is accepted (and silently does nothing) in any protocol state, including before earlier steps and after Close")
+				} else {
+					c.OK(rule, key, hdr.Pos, "the first thing the method does with control flow is the state check")
+				}
+			}
+		}
+	}
 }
